@@ -646,6 +646,29 @@ int main(int argc, char** argv) {
       shard_events[sh] += c.events + 50;
     }
   }
+  // "libc:UTC" (the C-library-backed zone without a local zone): its civil -> absolute direction is the fixed zone of
+  // offset 0 over the whole range (its absolute -> civil direction is limited by struct tm and is not asked here)
+  if (has("fixed") && (fam_make || fam_convert || fam_limits)) {
+    time_zone lz;
+    if (load_time_zone("libc:UTC", &lz)) {
+      ++idx;
+      Ctx c{files[0], ++zcount[0], lz, 0};
+      Ctx u{files[0], 0, utc_time_zone(), 0};
+      emit(c, "{\"e\":\"LoadFixed\",\"z\":" + std::to_string(c.z) + ",\"name\":\"fixed\",\"off\":0,\"ok\":1}");
+      std::vector<civil_second> cs;
+      for (int d = 0; d <= 2; ++d) {
+        cs.push_back(sconv(u, kMax - d)); cs.push_back(sconv(u, kMin + d));
+        cs.push_back(sconv(u, kMax - d) + 1 + d); cs.push_back(sconv(u, kMin + d) - 1 - d);
+      }
+      for (int64_t y : {(int64_t)2147483647 + 1900, (int64_t)2147483647 + 1901, (int64_t)-2147483647 - 1 + 1900, (int64_t)-2147483647 + 1898,
+                        (int64_t)3000000000LL, (int64_t)-3000000000LL, (int64_t)292277026596LL, (int64_t)-292277022657LL, (int64_t)292277026597LL,
+                        (int64_t)1970, (int64_t)2038, (int64_t)0, (int64_t)-1, (int64_t)100000000000LL})
+        for (int m : {1, 12}) cs.push_back(civil_second(y, m, m == 1 ? 1 : 31, m == 1 ? 0 : 23, 59, 59));
+      cs.push_back(civil_second::max()); cs.push_back(civil_second::min());
+      for (const civil_second& x : cs) { ev_make(c, x); ev_convert(c, x); }
+      total += c.events;
+    }
+  }
   for (FILE* f : files) fclose(f);
   fprintf(stderr, "drv_zone: %d zones (%d loaded), %llu events\n", idx, loaded, (unsigned long long)total);
   return 0;
